@@ -204,11 +204,19 @@ class ExtRecorder(Py27Recorder):
             self.stop()
 
     def tags(self, new_tags, gone_tags):
+        # keep the objects that were handed over: they must not change once delivered
+        self.__dict__.setdefault("_live_tags", []).append(
+            (new_tags, gone_tags, frozenset(new_tags), frozenset(gone_tags)))
         new_tags, gone_tags = set(new_tags), set(gone_tags)
         target = self._run_tags if self._test_tags is None else self._test_tags
         target.update(new_tags)
         target.difference_update(gone_tags)
         self.log.add("tags", None, {"new": frozenset(new_tags), "gone": frozenset(gone_tags)})
+
+    def aliasing_problems(self):
+        """tags() argument sets whose content changed after they were delivered."""
+        return [(sorted(sn), sorted(n), sorted(sg), sorted(g)) for n, g, sn, sg in self.__dict__.get("_live_tags", [])
+                if frozenset(n) != sn or frozenset(g) != sg]
 
     def time(self, a_datetime):
         self.log.add("time", None, {"time": a_datetime})
